@@ -147,14 +147,14 @@ func analyse(doc *gen.Tree) docInfo {
 				in.refs++
 			}
 		case "int":
-			if n.I > maxExact || n.I < -maxExact {
+			if (n.I > maxExact || n.I < -maxExact) && !exactInt(n.I) {
 				in.outOfRange = true
 			}
 			if n.I >= 1000000 || n.I <= -1000000 {
 				in.unstable = true
 			}
 		case "uint":
-			if n.U > uint64(maxExact) {
+			if n.U > uint64(maxExact) && !exactUint(n.U) {
 				in.outOfRange = true
 			}
 			if n.U >= 1000000 {
@@ -180,6 +180,18 @@ func analyse(doc *gen.Tree) docInfo {
 		}
 	})
 	return in
+}
+
+// exactInt / exactUint: the integer is exactly representable as float64, so the decoders that read numbers as
+// float64 (JSON, HJSON) and the one that reads integers exactly (YAML) obtain the same value.
+func exactInt(i int64) bool {
+	f := float64(i)
+	return f >= -9223372036854775808 && f < 9223372036854775808 && int64(f) == i
+}
+
+func exactUint(u uint64) bool {
+	f := float64(u)
+	return f < 18446744073709551616 && uint64(f) == u
 }
 
 // integralExact reports whether encoding/json writes f as an integer literal
@@ -303,6 +315,9 @@ func shapeType(n *gen.Tree, st *shapeStats) reflect.Type {
 	case "bool":
 		return tBool
 	case "int", "uint":
+		if (n.K == "int" && (n.I > maxExact || n.I < -maxExact)) || (n.K == "uint" && n.U > uint64(maxExact)) {
+			return tFloat64 // large exactly representable integers: no overflow verdicts are compared
+		}
 		return tInt64
 	case "float":
 		if integralExact(n.FloatVal()) {
@@ -886,7 +901,14 @@ func (g *genState) str(t *rapid.T) string {
 	}
 }
 
+// integers beyond 2^53 that float64 represents exactly (around the limits of int64 and uint64)
+var bigExact = []*gen.Tree{gen.Uint(1 << 63), gen.Uint(1<<63 + 2048), gen.Uint(1<<64 - 2048), gen.Int(1 << 62), gen.Int(-(1 << 62)), gen.Int(math.MinInt64),
+	gen.Int(1<<53 + 2), gen.Uint(1 << 60), gen.Int(1<<63 - 1024)}
+
 func (g *genState) num(t *rapid.T) *gen.Tree {
+	if !g.stableNums && pick(t, 12, "bigexact") == 0 {
+		return rapid.SampledFrom(bigExact).Draw(t, "bigexactv").Clone()
+	}
 	switch pick(t, 6, "numkind") {
 	case 0:
 		i := rapid.SampledFrom(edgeInts).Draw(t, "edgeint")
@@ -1040,7 +1062,7 @@ func genCase(t *rapid.T) Case {
 
 var subDocs = runlog.Register(&runlog.Sub[Case]{
 	Name: "front-ends",
-	Rule: "JSON-expressible documents (top-level object or list, depth <= 3/4, width <= 4/5; strings from YAML words, YAML-significant characters in every position, blanks, escapes, unicode and a wide random alphabet; integers |i| <= 2^53, floats incl. exponent spellings, booleans, nulls; keys simple, odd, numeric-looking and — hostile classes — dotted; values — hostile classes — with '$' and at most one ${...} reference) written once with encoding/json in one of 4 styles. Discarded: documents a third-party decoder rejects or on which the three decoders themselves read different data. Oracle: yaml/json/hjson NewConfig and NewConfigWithFile (file under the work directory) without options and with the case's PathSep/VarExp set: generic dump and shape-derived typed target (object->struct, homogeneous list->typed slice, integral->int64, other number->float64) canonically equal across the three and between file and memory; documents the options cannot act on must load and unpack, hostile ones must all load equal or all fail; one setting that cannot be an integer (a string that is no integer literal, a non-empty object, a list of two or more) unpacked into an int field must fail with (source:'<file>') in the text for all three file loaders and with the same error kind on the in-memory configs. Non-trivial: depth >= 2 and (a string with a YAML-significant character/word/outer blank, or a number with fraction or exponent). Distinct: hash of the whole case.",
+	Rule: "JSON-expressible documents (top-level object or list, depth <= 3/4, width <= 4/5; strings from YAML words, YAML-significant characters in every position, blanks, escapes, unicode and a wide random alphabet; integers |i| <= 2^53 and larger ones that float64 represents exactly (2^62, 2^63, 2^64-2048, MinInt64 ...), floats incl. exponent spellings, booleans, nulls; keys simple, odd, numeric-looking and — hostile classes — dotted; values — hostile classes — with '$' and at most one ${...} reference) written once with encoding/json in one of 4 styles. Discarded: documents a third-party decoder rejects or on which the three decoders themselves read different data. Oracle: yaml/json/hjson NewConfig and NewConfigWithFile (file under the work directory) without options and with the case's PathSep/VarExp set: generic dump and shape-derived typed target (object->struct, homogeneous list->typed slice, integral->int64, other number->float64) canonically equal across the three and between file and memory; documents the options cannot act on must load and unpack, hostile ones must all load equal or all fail; one setting that cannot be an integer (a string that is no integer literal, a non-empty object, a list of two or more) unpacked into an int field must fail with (source:'<file>') in the text for all three file loaders and with the same error kind on the in-memory configs. Non-trivial: depth >= 2 and (a string with a YAML-significant character/word/outer blank, or a number with fraction or exponent). Distinct: hash of the whole case.",
 	Gen:  genCase,
 	Run:  runCase,
 })
